@@ -88,6 +88,13 @@ Corpus ==
     dotagimp |-> ("main" :> <<Import(LS(NT.t1), "L"), For1("i", L12, <<Do(MCall("L", "mm", <<SP("s1", Var("i"))>>))>>), T(<<98>>)>>) @@ ("t1" :> Lib),
     dotagparent |-> ("main" :> <<Extends(LS(NT.t1)), Block("bb", <<Do(Call("parent", <<>>)), PrintS(SP("s1", LI(1)))>>)>>)
                     @@ ("t1" :> <<T(<<60>>), Block("bb", <<PrintS(SP("s2", LI(2)))>>), T(<<62>>)>>),
+    \* a loop without a body still evaluates its sequence; a value that is assigned and never used was still computed
+    emptyloop |-> ("main" :> <<T(<<97>>), For1("i", SP("s1", L12), <<>>), For("j", "", SF("s2", L12), <<>>, <<>>, FALSE), T(<<98>>)>>),
+    setunused |-> ("main" :> Lib \o <<T(<<97>>), Set("z", Call("mm", <<SP("s1", LI(1))>>)), Set("y", MCall("_self", "mm", <<LI(2), SP("s2", LI(3))>>)), T(<<98>>)>>),
+    \* an include of a template that renders nothing still evaluates what it is given
+    incempty |-> ("main" :> <<T(<<91>>), Include(LS(NT.t1), Hash(<<LS(NT.z)>>, <<SP("s1", LI(1))>>), TRUE, FALSE, FALSE, FALSE),
+                              Include(LS(NT.t2), Hash(<<LS(NT.z)>>, <<SF("s2", LI(2))>>), TRUE, TRUE, FALSE, FALSE), T(<<93>>)>>)
+                @@ ("t1" :> <<>>) @@ ("t2" :> <<Comment(<<32, 99, 32>>)>>),
     \* the spaceless tag around callbacks; a filter registered under the name spaceless is not what the tag uses
     spaceless |-> ("main" :> <<Spaceless(<<T(<<60, 97, 62, 32>>), PrintS(SP("s1", LI(1))), T(<<32, 60, 98, 62>>), PrintS(SF("s2", LS(<<60, 99, 62, 32, 60, 100, 62>>)))>>), PrintS(SP("s3", LI(2)))>>),
     deep    |-> ("main" :> <<Block("ob", <<For1("i", L12, <<If1(SP("s1", LB(TRUE)), <<Inc(LS(NT.t1))>>)>>)>>)>>)
@@ -148,6 +155,7 @@ Unresolved ==
     nofndefnot |-> [tp |-> ("main" :> <<T(<<97>>), PrintS(Cond(Test(Call("nofn", <<LI(1)>>), "defined", <<>>, TRUE), LI(1), LI(2)))>>), err |-> "unknown"],
     nofilterdef |-> [tp |-> ("main" :> <<Set("z", Test(Filt("nofilter", LS(sX), <<>>), "defined", <<>>, FALSE)), T(sX)>>), err |-> "unknown"],
     nofilterdefloop |-> [tp |-> ("main" :> <<For1("i", L12, <<If1(Test(Filt("upper", Filt("nofilter", Var("i"), <<>>), <<>>), "defined", <<>>, TRUE), <<T(sX)>>)>>)>>), err |-> "unknown"],
+    incemptynofn |-> [tp |-> ("main" :> <<T(<<97>>), Include(LS(NT.t1), Hash(<<LS(NT.z)>>, <<Call("nofn", <<>>)>>), TRUE, FALSE, FALSE, FALSE)>>) @@ ("t1" :> <<>>), err |-> "unknown"],
     inmacro   |-> [tp |-> ("main" :> <<Macro("mw", <<>>, <<PrintS(Call("nofn", <<>>))>>), PrintS(Call("mw", <<>>))>>), err |-> "unknown"]
   ]
 
